@@ -14,6 +14,7 @@ import (
 	"reflect"
 	"strconv"
 	"strings"
+	"testing/iotest"
 
 	"github.com/linuxboot/fiano/pkg/intel/metadata/bg"
 	"github.com/linuxboot/fiano/pkg/intel/metadata/bg/bgbootpolicy"
@@ -289,7 +290,17 @@ func countValueLen(st reflect.Value) (uint64, bool) {
 			return (ks >> 3) + 4, true
 		}
 		return 65535, true
-	case "github.com/linuxboot/fiano/pkg/intel/metadata/cbnt.Signature", "github.com/linuxboot/fiano/pkg/intel/metadata/bg.Signature":
+	case "github.com/linuxboot/fiano/pkg/intel/metadata/cbnt.Signature":
+		// an RSA signature is as wide as the key; an ECDSA or SM2 signature is the pair (R, S) of
+		// two values as wide as the key (document #575623; this is also what Signature.SetSignature
+		// stores and what Signature.SignatureData demands: 64 or 96 bytes for KeySize 256 / 384)
+		n := st.FieldByName("KeySize").Uint() >> 3
+		switch st.FieldByName("SigScheme").Uint() {
+		case 0x18, 0x1b:
+			return n * 2, true
+		}
+		return n, true
+	case "github.com/linuxboot/fiano/pkg/intel/metadata/bg.Signature":
 		return st.FieldByName("KeySize").Uint() >> 3, true
 	case "github.com/linuxboot/fiano/pkg/intel/metadata/bg.HashStructureFill":
 		switch st.FieldByName("HashAlg").Uint() {
@@ -504,6 +515,20 @@ func pRoundTrip(args []string) string {
 	if serStr(q.Interface()) != serStr(p.Interface()) {
 		return "FAIL value-differs " + name
 	}
+	if ts := q.Interface().(codec).TotalSize(); ts != uint64(n2) {
+		return fmt.Sprintf("FAIL read-totalsize %s returned=%d TotalSize-of-value-read=%d", name, n2, ts)
+	}
+	// the same through a reader that delivers one byte per Read call (any io.Reader may do that)
+	if len(in) <= 70000 {
+		q1 := reflect.New(p.Elem().Type())
+		n4, err := q1.Interface().(codec).ReadFrom(iotest.OneByteReader(bytes.NewReader(in)))
+		if err != nil {
+			return "FAIL read-error-bytewise " + name + ": " + strings.ReplaceAll(err.Error(), "\t", " ")
+		}
+		if n4 != n2 || serStr(q1.Interface()) != serStr(q.Interface()) {
+			return fmt.Sprintf("FAIL read-bytewise-differs %s returned=%d (whole input at once: %d)", name, n4, n2)
+		}
+	}
 	b2, n3, err := write(q)
 	if err != nil || n3 != int64(len(b2)) {
 		return "FAIL rewrite-error " + name
@@ -562,6 +587,123 @@ func checkLayout(p reflect.Value, path string) string {
 	return ""
 }
 
+func fieldAt(pos []fieldPos, name string) int {
+	for _, fp := range pos {
+		if fp.name == name {
+			return fp.off
+		}
+	}
+	return -1
+}
+
+// value of a tag expression of the shapes the declarations use: N | [uintW(][s.]TotalSize()[)] |
+// [uintW(][s.]<F>Offset()[)]; evaluated on the reference layout of the structure, never by calling
+// the code under test.  Anything else (rehashedBPMH()): no demand.
+func evalTag(expr string, refLen int, pos []fieldPos) (uint64, bool) {
+	e := strings.TrimSpace(expr)
+	if n, err := strconv.ParseUint(e, 0, 64); err == nil {
+		return n, true
+	}
+	conv := uint64(0)
+	for _, c := range []struct {
+		pre  string
+		bits uint
+	}{{"uint8(", 8}, {"uint16(", 16}, {"uint32(", 32}, {"uint64(", 64}} {
+		if strings.HasPrefix(e, c.pre) && strings.HasSuffix(e, ")") {
+			e = e[len(c.pre) : len(e)-1]
+			conv = uint64(c.bits)
+			break
+		}
+	}
+	e = strings.TrimPrefix(e, "s.")
+	var v uint64
+	switch {
+	case e == "TotalSize()":
+		v = uint64(refLen)
+	case strings.HasSuffix(e, "Offset()"):
+		at := fieldAt(pos, strings.TrimSuffix(e, "Offset()"))
+		if at < 0 {
+			return 0, false
+		}
+		v = uint64(at)
+	default:
+		return 0, false
+	}
+	// a size or offset that the conversion in the tag would truncate: what a writer should do
+	// with a value its field cannot hold (wrap, saturate, refuse) is not something the
+	// declaration prescribes -- no demand
+	if conv != 0 && conv < 64 && v > uint64(1)<<conv-1 {
+		return 0, false
+	}
+	return v, true
+}
+
+// after WriteTo: every field whose tag prescribes its written value (StructInfo: var0 -> Variable0,
+// var1 -> ElementSize; rehashValue on an integer field) holds that value, computed here on the
+// reference layout of the enclosing structure; demanded only where that value fits the field
+func checkStored(v reflect.Value, path string) string {
+	t := v.Type()
+	var ref []byte
+	pos := refStruct(v, &ref)
+	demand := func(f reflect.Value, what, expr string) string {
+		if expr == "" || !isUint(f.Kind()) {
+			return ""
+		}
+		want, ok := evalTag(expr, len(ref), pos)
+		if !ok {
+			return ""
+		}
+		if w := f.Type().Size(); w < 8 && want > uint64(1)<<(8*uint(w))-1 {
+			return "" // does not fit the field: no demand (see evalTag)
+		}
+		if f.Uint() != want {
+			return fmt.Sprintf("FAIL stored-value %s.%s written=%d prescribed(%s)=%d", path, what, f.Uint(), expr, want)
+		}
+		return ""
+	}
+	for i := 0; i < v.NumField(); i++ {
+		f := v.Field(i)
+		sf := t.Field(i)
+		nm := path + "." + sf.Name
+		if sf.Name == "StructInfo" && f.Kind() == reflect.Struct {
+			if x := f.FieldByName("Variable0"); x.IsValid() {
+				if r := demand(x, "StructInfo.Variable0", sf.Tag.Get("var0")); r != "" {
+					return r
+				}
+			}
+			if x := f.FieldByName("ElementSize"); x.IsValid() {
+				if r := demand(x, "StructInfo.ElementSize", sf.Tag.Get("var1")); r != "" {
+					return r
+				}
+			}
+		}
+		if r := demand(f, sf.Name, sf.Tag.Get("rehashValue")); r != "" {
+			return r
+		}
+		switch f.Kind() {
+		case reflect.Struct:
+			if r := checkStored(f, nm); r != "" {
+				return r
+			}
+		case reflect.Ptr:
+			if !f.IsNil() {
+				if r := checkStored(f.Elem(), nm); r != "" {
+					return r
+				}
+			}
+		case reflect.Slice:
+			if f.Type().Elem().Kind() == reflect.Struct {
+				for k := 0; k < f.Len(); k++ {
+					if r := checkStored(f.Index(k), fmt.Sprintf("%s[%d]", nm, k)); r != "" {
+						return r
+					}
+				}
+			}
+		}
+	}
+	return ""
+}
+
 // the output of WriteTo is the layout the declaration prescribes; every
 // <F>Offset()/<F>TotalSize() is the position/length of F in it; the stored
 // signature offsets point at the key-and-signature structure
@@ -583,6 +725,17 @@ func pLayout(args []string) string {
 	if r := checkLayout(p, name); r != "" {
 		return r
 	}
+	// the same accessors on the value obtained by reading the output
+	q := reflect.New(p.Elem().Type())
+	if _, err := q.Interface().(codec).ReadFrom(bytes.NewReader(b1)); err == nil && serStr(q.Interface()) == serStr(p.Interface()) {
+		if r := checkLayout(q, name+"(read back)"); r != "" {
+			return r
+		}
+	}
+	// values the field tags prescribe for the output (var0, var1, rehashValue)
+	if r := checkStored(p.Elem(), name); r != "" {
+		return r
+	}
 	readKS := func(off uint64, want interface{}) string {
 		if off > uint64(len(b1)) {
 			return "FAIL sigoffset-outside " + name
@@ -596,9 +749,16 @@ func pLayout(args []string) string {
 		}
 		return ""
 	}
+	// position of the key-and-signature structure in the reference layout; the stored offset is a
+	// uint16, so the clause can only be demanded when that position fits
 	switch m := p.Interface().(type) {
 	case *cbntkey.Manifest:
-		if len(b1) < 65536 {
+		var tmp []byte
+		at := fieldAt(refStruct(p.Elem(), &tmp), "KeyAndSignature")
+		if at >= 0 && at < 65536 {
+			if uint64(m.KeyManifestSignatureOffset) != uint64(at) {
+				return fmt.Sprintf("FAIL sigoffset-position %s stored=%d key-and-signature-at=%d", name, m.KeyManifestSignatureOffset, at)
+			}
 			if uint64(m.KeyManifestSignatureOffset) != m.KeyAndSignatureOffset() {
 				return "FAIL sigoffset-accessor " + name
 			}
@@ -607,7 +767,14 @@ func pLayout(args []string) string {
 			}
 		}
 	case *cbntbootpolicy.Manifest:
-		if len(b1) < 65536 {
+		var tmp []byte
+		at := fieldAt(refStruct(p.Elem(), &tmp), "PMSE")
+		var tmp2 []byte
+		in := fieldAt(refStruct(reflect.ValueOf(&m.PMSE).Elem(), &tmp2), "KeySignature")
+		if at >= 0 && in >= 0 && at+in < 65536 {
+			if uint64(m.BPMH.KeySignatureOffset) != uint64(at+in) {
+				return fmt.Sprintf("FAIL sigoffset-position %s stored=%d key-and-signature-at=%d", name, m.BPMH.KeySignatureOffset, at+in)
+			}
 			if r := readKS(uint64(m.BPMH.KeySignatureOffset), &m.PMSE.KeySignature); r != "" {
 				return r
 			}
@@ -634,8 +801,12 @@ func genUint(r *Rng, bits int) uint64 {
 	return r.U64() & max
 }
 
+// genStrict: values well formed by construction (count values always fixed up, every element with
+// its own structure ID, no blob or list beyond its count type); used by the targeted families
+var genStrict bool
+
 func genBlobLen(r *Rng, cw int) int {
-	if r.Chance(1, 400) {
+	if r.Chance(1, 400) && !genStrict {
 		if cw == 1 {
 			return r.Pick(255, 256)
 		}
@@ -644,7 +815,11 @@ func genBlobLen(r *Rng, cw int) int {
 	return r.Pick(0, 0, 1, 2, 5, 20, 32, 48, 64, 260)
 }
 
-var keySizes = []int{256, 384, 1024, 2048, 3072, 0, 8, 65528, 65535, 2055}
+var keySizes = []int{256, 384, 1024, 2048, 3072, 0, 8, 65528, 65535, 2055, 4096}
+
+// algorithm identifiers (TPM_ALG_*) as the manifests use them
+var hashAlgs = []int{0x4, 0xb, 0xc, 0xd, 0x12, 0x10}
+var hashLens = map[int]int{0x4: 20, 0xb: 32, 0xc: 48, 0xd: 64, 0x12: 32, 0x10: 0}
 
 func fixCountValues(r *Rng, v reflect.Value) {
 	t := v.Type()
@@ -663,15 +838,51 @@ func fixCountValues(r *Rng, v reflect.Value) {
 			alg = []int{1}
 		}
 		a := alg[r.Intn(len(alg))]
-		if r.Chance(1, 60) {
+		if r.Chance(1, 60) && !genStrict {
 			a = r.Pick(0, 0x10, 0xffff) // unknown algorithm: 65535 bytes expected
 		}
 		v.FieldByName("KeyAlg").SetUint(uint64(a))
-		v.FieldByName("KeySize").SetUint(uint64(keySizes[r.Intn(len(keySizes))]))
+		ks := keySizes[r.Intn(len(keySizes))]
+		if r.Bool() { // a size that goes with the algorithm
+			switch a {
+			case 1:
+				ks = r.Pick(1024, 2048, 3072, 4096)
+			case 0x23:
+				ks = r.Pick(256, 384)
+			case 0x1b:
+				ks = 256
+			}
+		}
+		v.FieldByName("KeySize").SetUint(uint64(ks))
 		setData("Data")
 	case strings.HasSuffix(full, "/cbnt.Signature"), strings.HasSuffix(full, "/bg.Signature"):
-		v.FieldByName("KeySize").SetUint(uint64(keySizes[r.Intn(len(keySizes))]))
+		ks := keySizes[r.Intn(len(keySizes))]
+		// signature scheme and hash algorithm: the defined identifiers, now and then anything
+		scheme := r.Pick(0x14, 0x16, 0x14, 0x16, 0x18, 0x1b)
+		if strings.HasSuffix(full, "/bg.Signature") {
+			scheme = r.Pick(0x14, 0x16)
+		}
+		if scheme == 0x18 && r.Chance(3, 4) {
+			ks = r.Pick(256, 384)
+		}
+		if scheme == 0x1b && r.Chance(3, 4) {
+			ks = 256
+		}
+		if !r.Chance(1, 8) {
+			v.FieldByName("SigScheme").SetUint(uint64(scheme))
+		}
+		if !r.Chance(1, 8) {
+			v.FieldByName("HashAlg").SetUint(uint64(hashAlgs[r.Intn(len(hashAlgs))]))
+		}
+		v.FieldByName("KeySize").SetUint(uint64(ks))
 		setData("Data")
+	case strings.HasSuffix(full, "/cbnt.HashStructure"), strings.HasSuffix(full, "/bg.HashStructure"):
+		// half of the digests: a defined hash algorithm with a digest of its length
+		if r.Bool() {
+			a := hashAlgs[r.Intn(len(hashAlgs))]
+			v.FieldByName("HashAlg").SetUint(uint64(a))
+			v.FieldByName("HashBuffer").SetBytes(r.Bytes(hashLens[a]))
+		}
 	case strings.HasSuffix(full, "/bg.HashStructureFill"):
 		v.FieldByName("HashAlg").SetUint(uint64(r.Pick(0, 0x10, 0xb, 0xb, 0x4, 0x4, 0xc, 0xffff)))
 		setData("HashBuffer")
@@ -693,7 +904,7 @@ func genValue(r *Rng, v reflect.Value, tag reflect.StructTag, depth int) {
 			return
 		}
 		n := r.Pick(0, 1, 1, 2, 3)
-		if r.Chance(1, 150) && !isElement(et) {
+		if r.Chance(1, 150) && !isElement(et) && !genStrict {
 			if cwBytes(tag) == 1 {
 				n = r.Pick(255, 256)
 			} else if et.Kind() != reflect.Struct {
@@ -715,10 +926,10 @@ func genValue(r *Rng, v reflect.Value, tag reflect.StructTag, depth int) {
 		for i := 0; i < v.NumField(); i++ {
 			genValue(r, v.Field(i), v.Type().Field(i).Tag, depth+1)
 		}
-		if !r.Chance(1, 12) {
+		if !r.Chance(1, 12) || genStrict {
 			fixCountValues(r, v)
 		}
-		if isElement(v.Type()) && !r.Chance(1, 25) {
+		if isElement(v.Type()) && (!r.Chance(1, 25) || genStrict) {
 			id := idOfElement(v.Type())
 			f := v.FieldByName("StructInfo").FieldByName("ID")
 			for i := 0; i < 8 && i < len(id); i++ {
@@ -762,6 +973,366 @@ func mutate(r *Rng, b []byte) []byte {
 	return b
 }
 
+// WriteTo inside the generator process: a panic of the code under test must not take the
+// generator down (the same value is judged in the worker, where a panic is an observation)
+func safeWrite(p reflect.Value) (b []byte, err error) {
+	defer func() {
+		if x := recover(); x != nil {
+			b, err = nil, fmt.Errorf("panic: %v", x)
+		}
+	}()
+	b, _, err = write(p)
+	return
+}
+
+func strictValue(r *Rng, t reflect.Type) reflect.Value {
+	old := genStrict
+	genStrict = true
+	defer func() { genStrict = old }()
+	p := reflect.New(t)
+	genValue(r, p.Elem(), "", 0)
+	return p
+}
+
+// every structure of type <pkg>.KeySignature inside v gets the given algorithm choice
+func setAlgs(r *Rng, v reflect.Value, keyAlg, keyBits, scheme, hashAlg int) {
+	switch v.Kind() {
+	case reflect.Ptr:
+		if !v.IsNil() {
+			setAlgs(r, v.Elem(), keyAlg, keyBits, scheme, hashAlg)
+		}
+	case reflect.Slice:
+		if v.Type().Elem().Kind() == reflect.Struct {
+			for i := 0; i < v.Len(); i++ {
+				setAlgs(r, v.Index(i), keyAlg, keyBits, scheme, hashAlg)
+			}
+		}
+	case reflect.Struct:
+		if v.Type().Name() == "KeySignature" {
+			v.FieldByName("Version").SetUint(0x10)
+			k, sg := v.FieldByName("Key"), v.FieldByName("Signature")
+			k.FieldByName("KeyAlg").SetUint(uint64(keyAlg))
+			k.FieldByName("Version").SetUint(0x10)
+			k.FieldByName("KeySize").SetUint(uint64(keyBits))
+			n, _ := countValueLen(k)
+			k.FieldByName("Data").SetBytes(r.Bytes(int(n)))
+			sg.FieldByName("SigScheme").SetUint(uint64(scheme))
+			sg.FieldByName("Version").SetUint(0x10)
+			sg.FieldByName("KeySize").SetUint(uint64(keyBits))
+			sg.FieldByName("HashAlg").SetUint(uint64(hashAlg))
+			n, _ = countValueLen(sg)
+			sg.FieldByName("Data").SetBytes(r.Bytes(int(n)))
+			return
+		}
+		for i := 0; i < v.NumField(); i++ {
+			setAlgs(r, v.Field(i), keyAlg, keyBits, scheme, hashAlg)
+		}
+	}
+}
+
+type algChoice struct{ keyAlg, keyBits, scheme int }
+
+var cbntAlgChoices = []algChoice{
+	{1, 1024, 0x14}, {1, 2048, 0x14}, {1, 3072, 0x14}, {1, 4096, 0x14},
+	{1, 1024, 0x16}, {1, 2048, 0x16}, {1, 3072, 0x16}, {1, 4096, 0x16},
+	{0x23, 256, 0x18}, {0x23, 384, 0x18}, {0x1b, 256, 0x1b},
+}
+var bgAlgChoices = []algChoice{{1, 1024, 0x14}, {1, 2048, 0x14}, {1, 3072, 0x14}, {1, 2048, 0x16}, {1, 3072, 0x16}}
+
+func regType(name string) reflect.Type { return typeOf(name) }
+
+// a structure of the named type, well formed, whose blob / list <path> has n entries
+func sized(r *Rng, name string, n int, path ...string) reflect.Value {
+	p := strictValue(r, regType(name))
+	v := p.Elem()
+	for _, f := range path[:len(path)-1] {
+		v = v.FieldByName(f)
+		if v.Kind() == reflect.Ptr {
+			if v.IsNil() {
+				v.Set(strictValue(r, v.Type().Elem()))
+			}
+			v = v.Elem()
+		}
+	}
+	f := v.FieldByName(path[len(path)-1])
+	et := f.Type().Elem()
+	if et.Kind() == reflect.Uint8 && et.Name() == "uint8" {
+		f.SetBytes(r.Bytes(n))
+		return p
+	}
+	s := reflect.MakeSlice(f.Type(), n, n)
+	old := genStrict
+	genStrict = true
+	for i := 0; i < n; i++ {
+		genValue(r, s.Index(i), "", 1)
+	}
+	genStrict = old
+	f.Set(s)
+	return p
+}
+
+// position of the key-and-signature structure in the reference layout of a CBnT manifest
+func ksPosition(p reflect.Value) int {
+	var tmp []byte
+	switch m := p.Interface().(type) {
+	case *cbntkey.Manifest:
+		return fieldAt(refStruct(p.Elem(), &tmp), "KeyAndSignature")
+	case *cbntbootpolicy.Manifest:
+		at := fieldAt(refStruct(p.Elem(), &tmp), "PMSE")
+		var tmp2 []byte
+		return at + fieldAt(refStruct(reflect.ValueOf(&m.PMSE).Elem(), &tmp2), "KeySignature")
+	}
+	return -1
+}
+
+// the targeted families: implementation-side oracles only (the values are well formed by construction)
+func genFamilies(r *Rng, tier string, emit Emit) {
+	emitP := func(name string, p reflect.Value, rr *Rng) {
+		desc := serStr(p.Interface())
+		emit("P", "p_roundtrip", name, desc, H(rr.Bytes(rr.Pick(0, 1, 7, 30))))
+		emit("P", "p_layout", name, desc)
+	}
+	reps := 1
+	if tier == "thorough" {
+		reps = 12
+	}
+	// (a) containers: every combination of the optional elements x 0 / 1 / 2 list elements
+	for rep := 0; rep < reps; rep++ {
+		for ci, name := range []string{"cbnt_cbntbootpolicy_Manifest", "bg_bgbootpolicy_Manifest"} {
+			t := regType(name)
+			var opt, lists []int
+			for i := 0; i < t.NumField(); i++ {
+				switch t.Field(i).Type.Kind() {
+				case reflect.Ptr:
+					opt = append(opt, i)
+				case reflect.Slice:
+					lists = append(lists, i)
+				}
+			}
+			for mask := 0; mask < 1<<uint(len(opt)); mask++ {
+				for n := 0; n <= 2; n++ {
+					rr := r.Fork(uint64(0xA000000 + rep*100000 + ci*10000 + mask*10 + n))
+					p := strictValue(rr, t)
+					for k, i := range opt {
+						f := p.Elem().Field(i)
+						if mask>>uint(k)&1 == 1 {
+							f.Set(strictValue(rr, f.Type().Elem()))
+						} else {
+							f.Set(reflect.Zero(f.Type()))
+						}
+					}
+					for _, i := range lists {
+						f := p.Elem().Field(i)
+						s := reflect.MakeSlice(f.Type(), n, n)
+						for k := 0; k < n; k++ {
+							s.Index(k).Set(strictValue(rr, f.Type().Elem()).Elem())
+						}
+						f.Set(s)
+					}
+					emitP(name, p, rr)
+				}
+			}
+		}
+	}
+	// (d) the element dispatch loop of the containers (order, multiplicity, missing and unknown
+	// elements): the written manifest cut into its elements along the reference layout, then one
+	// element repeated in place / two neighbours swapped / one dropped / an unknown header
+	// inserted / an element appended again; judged by the correspondence with the model
+	for rep := 0; rep < reps; rep++ {
+		for ci, name := range []string{"cbnt_cbntbootpolicy_Manifest", "bg_bgbootpolicy_Manifest"} {
+			rr := r.Fork(uint64(0xD000000 + rep*100 + ci))
+			p := strictValue(rr, regType(name))
+			if rep%2 == 0 { // every element present, two list elements
+				for i := 0; i < p.Elem().NumField(); i++ {
+					f := p.Elem().Field(i)
+					switch f.Kind() {
+					case reflect.Ptr:
+						if f.IsNil() {
+							f.Set(strictValue(rr, f.Type().Elem()))
+						}
+					case reflect.Slice:
+						sl := reflect.MakeSlice(f.Type(), 2, 2)
+						for k := 0; k < 2; k++ {
+							sl.Index(k).Set(strictValue(rr, f.Type().Elem()).Elem())
+						}
+						f.Set(sl)
+					}
+				}
+			}
+			setAlgs(rr, p.Elem(), 1, 1024, 0x14, 0xb) // a small key-and-signature structure
+			b, err := safeWrite(p)
+			if err != nil {
+				continue
+			}
+			var ref []byte
+			pos := refStruct(p.Elem(), &ref)
+			if !bytes.Equal(ref, b) || len(b) > 6000 {
+				continue
+			}
+			var chunks [][]byte
+			for i, fp := range pos {
+				f := p.Elem().Field(i)
+				if f.Kind() == reflect.Slice {
+					off := fp.off
+					for k := 0; k < f.Len(); k++ {
+						var tmp []byte
+						refStruct(f.Index(k), &tmp)
+						chunks = append(chunks, b[off:off+len(tmp)])
+						off += len(tmp)
+					}
+				} else if fp.size > 0 {
+					chunks = append(chunks, b[fp.off:fp.off+fp.size])
+				}
+			}
+			join := func(cs ...[]byte) []byte {
+				var out []byte
+				for _, c := range cs {
+					out = append(out, c...)
+				}
+				return out
+			}
+			seq := func(idx ...int) []byte {
+				var out []byte
+				for _, i := range idx {
+					out = append(out, chunks[i]...)
+				}
+				return out
+			}
+			n := len(chunks)
+			all := make([]int, n)
+			for i := range all {
+				all[i] = i
+			}
+			emit("C", "dec", name, H(seq(all...)))
+			for k := 0; k < n; k++ {
+				dup := append(append(append([]int{}, all[:k+1]...), k), all[k+1:]...)
+				emit("C", "dec", name, H(seq(dup...)))
+				drop := append(append([]int{}, all[:k]...), all[k+1:]...)
+				emit("C", "dec", name, H(seq(drop...)))
+				again := append(append([]int{}, all...), k)
+				emit("C", "dec", name, H(seq(again...)))
+				if k+1 < n {
+					sw := append([]int{}, all...)
+					sw[k], sw[k+1] = sw[k+1], sw[k]
+					emit("C", "dec", name, H(seq(sw...)))
+				}
+				unk := append([]byte("__XYZW__"[:8]), rr.Bytes(4)...)
+				emit("C", "dec", name, H(join(seq(all[:k]...), unk, seq(all[k:]...))))
+			}
+			emit("C", "dec", name, H(join(seq(all...), append([]byte("__XYZW__"[:8]), rr.Bytes(4)...))))
+		}
+	}
+	// (b) key algorithm x key size x signature scheme x hash algorithm, in every structure that
+	// holds a key-and-signature structure
+	for rep := 0; rep < reps; rep++ {
+		for fi, fam := range []struct {
+			names   []string
+			choices []algChoice
+		}{
+			{[]string{"cbnt_KeySignature", "cbnt_cbntbootpolicy_Signature", "cbnt_cbntkey_Manifest", "cbnt_cbntbootpolicy_Manifest"}, cbntAlgChoices},
+			{[]string{"bg_KeySignature", "bg_bgbootpolicy_Signature", "bg_bgkey_Manifest", "bg_bgbootpolicy_Manifest"}, bgAlgChoices},
+		} {
+			for ni, name := range fam.names {
+				for ai, a := range fam.choices {
+					rr := r.Fork(uint64(0xB000000 + rep*100000 + fi*10000 + ni*1000 + ai))
+					p := strictValue(rr, regType(name))
+					h := hashAlgs[(ai+ni+rep)%5]
+					if fi == 1 {
+						h = []int{0x4, 0xb}[(ai+ni+rep)%2]
+					}
+					setAlgs(rr, p.Elem(), a.keyAlg, a.keyBits, a.scheme, h)
+					emitP(name, p, rr)
+				}
+			}
+		}
+	}
+	// (c) sizes and counts at the limits of their 8- and 16-bit count / size / offset fields
+	type bcase struct {
+		name string
+		n    int
+		path []string
+	}
+	var bc []bcase
+	add := func(name string, path []string, ns ...int) {
+		for _, n := range ns {
+			bc = append(bc, bcase{name, n, path})
+		}
+	}
+	// element size fields: header 12 + reserved 2 + size prefix 2 + data
+	add("cbnt_cbntbootpolicy_PM", []string{"Data"}, 65519, 65520, 65535)
+	add("cbnt_cbntbootpolicy_PCD", []string{"Data"}, 65519, 65520)
+	add("bg_bgbootpolicy_PM", []string{"Data"}, 65535)
+	add("cbnt_HashStructure", []string{"HashBuffer"}, 255, 256, 65535)
+	add("bg_HashStructure", []string{"HashBuffer"}, 65535)
+	add("cbnt_HashList", []string{"List"}, 255, 256, 300)
+	add("cbnt_cbntbootpolicy_SE", []string{"IBBSegments"}, 254, 255)
+	add("bg_bgbootpolicy_SE", []string{"IBBSegments"}, 255)
+	add("cbnt_TPMInfoList", []string{"Algorithms"}, 255, 256, 65535)
+	add("cbnt_cbntkey_Manifest", []string{"Hash"}, 255, 256)
+	add("cbnt_cbntbootpolicy_SE", []string{"DigestList", "List"}, 256)
+	add("cbnt_cbntbootpolicy_TXT", []string{"DigestList", "List"}, 256)
+	if tier == "thorough" {
+		for k := 0; k < 60; k++ {
+			rr := r.Fork(uint64(0xC800000 + k))
+			add("cbnt_cbntbootpolicy_PM", []string{"Data"}, 65535-rr.Intn(40))
+			add("cbnt_cbntbootpolicy_PCD", []string{"Data"}, 65535-rr.Intn(40))
+			add("cbnt_HashStructure", []string{"HashBuffer"}, rr.Pick(254, 255, 256, 257, 65534, 65535))
+			add("cbnt_TPMInfoList", []string{"Algorithms"}, rr.Pick(254, 257, 32767, 32768, 65534))
+			add("cbnt_cbntbootpolicy_SE", []string{"IBBSegments"}, rr.Pick(127, 128, 253, 255))
+		}
+	}
+	for k, c := range bc {
+		rr := r.Fork(uint64(0xC000000 + k))
+		emitP(c.name, sized(rr, c.name, c.n, c.path...), rr)
+	}
+	// a hash list whose size field wraps (two digests of 40000 bytes)
+	{
+		rr := r.Fork(0xC100000)
+		p := sized(rr, "cbnt_HashList", 2, "List")
+		l := p.Elem().FieldByName("List")
+		for i := 0; i < 2; i++ {
+			l.Index(i).FieldByName("HashBuffer").SetBytes(rr.Bytes(40000))
+		}
+		emitP("cbnt_HashList", p, rr)
+	}
+	// stored signature offsets just below, at and above the largest value a uint16 holds:
+	// the manifest is padded (KM: one digest; BPM: the platform manufacturer data) so that the
+	// key-and-signature structure lands on the wanted position
+	targets := []int{65535, 65536, 65534, 65537}
+	if tier == "thorough" {
+		for k := 0; k < 40; k++ {
+			targets = append(targets, 65536-20+k)
+		}
+	}
+	for k, target := range targets {
+		for ni, name := range []string{"cbnt_cbntkey_Manifest", "cbnt_cbntbootpolicy_Manifest"} {
+			rr := r.Fork(uint64(0xC200000 + k*10 + ni))
+			var p reflect.Value
+			var pad reflect.Value
+			if ni == 0 {
+				p = sized(rr, name, 1, "Hash")
+				pad = p.Elem().FieldByName("Hash").Index(0).FieldByName("Digest").FieldByName("HashBuffer")
+			} else {
+				p = sized(rr, name, 0, "PME", "Data")
+				// keep the other elements small
+				p.Elem().FieldByName("SE").Set(reflect.Zero(p.Elem().FieldByName("SE").Type()))
+				p.Elem().FieldByName("PCDE").Set(reflect.Zero(p.Elem().FieldByName("PCDE").Type()))
+				pad = p.Elem().FieldByName("PME").Elem().FieldByName("Data")
+			}
+			pad.SetBytes(nil)
+			at := ksPosition(p)
+			if at < 0 || target-at < 0 || target-at > 65535 {
+				continue
+			}
+			pad.SetBytes(rr.Bytes(target - at))
+			if ksPosition(p) != target {
+				continue
+			}
+			emitP(name, p, rr)
+		}
+	}
+}
+
 func gen(r *Rng, tier string, emit Emit) {
 	rounds := 9
 	if tier == "thorough" {
@@ -779,7 +1350,7 @@ func gen(r *Rng, tier string, emit Emit) {
 			emit("C", "enc", e.name, desc)
 			emit("C", "size", e.name, desc)
 			emit("C", "offs", e.name, desc)
-			b, _, err := write(p)
+			b, err := safeWrite(p)
 			if err != nil {
 				continue
 			}
@@ -791,6 +1362,7 @@ func gen(r *Rng, tier string, emit Emit) {
 			emit("C", "dec", e.name, H(mutate(rr, b)))
 		}
 	}
+	genFamilies(r.Fork(0xC15A), tier, emit)
 }
 
 var _ = binary.LittleEndian
